@@ -105,9 +105,15 @@ def nontrivial(run):
     return len(set(names)) >= 2
 
 
+def gen_run(rng, idx):
+    if idx % 250 == 113:
+        return gen.gen_budget(rng)       # medium-size two-variable input, several hundred rewrite steps per partial
+    return gen.gen_scenario(rng, BASE)
+
+
 def run_one(seed, idx, variant):
     rng = random.Random(runner.mix(seed, PROP, idx))
-    scn = gen.gen_scenario(rng, BASE)
+    scn = gen_run(rng, idx)
     scn_v = variant_of(scn, variant, runner.mix(seed, "C18v", idx) ^ variant.get("id", 0))
     run = engine.Run(scn_v, oracles=(), reach=False).execute()
     return scn, run
@@ -304,7 +310,7 @@ def sample_run(seed):
 def investigate(seed, idx, cfg_a, cfg_b, known):
     """Reproduce the mismatch in isolation, attribute or minimise, write the replay file."""
     rng = random.Random(runner.mix(seed, PROP, idx))
-    scn = gen.gen_scenario(rng, BASE)
+    scn = gen_run(rng, idx)
     a = {"hashseed": cfg_a["hashseed"], "variant": cfg_a["variant"],
          "vseed": runner.mix(seed, "C18v", idx) ^ cfg_a["variant"].get("id", 0)}
     b = {"hashseed": cfg_b["hashseed"], "variant": cfg_b["variant"],
